@@ -60,6 +60,14 @@ def gen_cases(tier, seed):
         if mult == 1 and rng.random() < 0.25 and k >= 2:
             idx = list(range(k)); rng.shuffle(idx); cut = rng.randint(1, k - 1)
             parts = [[sum(gset[i] for i in idx[:cut]), sum(gset[i] for i in idx[cut:])]]
+        r5 = gen.rng_for("C15p", seed, i)
+        if mult == 1 and k >= 3 and r5.random() < 0.3:
+            # few, small numbers next to a FINE partition of the total (three or more parts, e.g. the planted elements themselves): the parts force
+            # several elements that are larger than every number
+            idx = list(range(k)); r5.shuffle(idx); nparts = r5.randint(3, k)
+            cuts = sorted(r5.sample(range(1, k), nparts - 1)); groups = [idx[a:b] for a, b in zip([0] + cuts, cuts + [k])]
+            parts = [[sum(gset[i] for i in g) for g in groups]]
+            nums = [min(gset)] if r5.random() < 0.6 else sorted(set(nums))[:1]
         lb = 1 if rng.random() < 0.7 else rng.randint(1, 2)
         cases.append({"kind": "mgs", "numbers": nums, "total": total, "mult": mult, "wt": wt, "lb": lb, "parts": parts, "rcv": rng.random() < 0.8, "planted": k,
                       "np": (rng.choice(["int64", "int32"]) if wt == "int" else "float64") if rng.random() < 0.1 else None})
@@ -134,7 +142,8 @@ def run_mgs(case, viol, obs):
             sc = case["scaled"]; ie = [x for x in sc["numbers"] if 0 < x]
             kstar = ref.min_gen_set([float(x) for x in ie], float(sc["total"]), float, mult, partitions=None, kmax=len(set(ie)) + 2)
         else:
-            kstar = ref.min_gen_set(eff, total, wt, mult, partitions=case["parts"], kmax=len(set(eff)) + 2)
+            # (search bound: the numbers plus a remainder always generate; with partition constraints the planted set is a witness of its own size)
+            kstar = ref.min_gen_set(eff, total, wt, mult, partitions=case["parts"], kmax=max(len(set(eff)) + 2, (case.get("planted") or 0) if case["parts"] else 0))
     except ref.RefTimeout:
         obs["c15.ref_timeout"] += 1; return None, False
     if wt is int and total <= 24 and not case["parts"] and len(set(eff)) <= 4 and kstar is not None and kstar <= 3:
